@@ -20,7 +20,9 @@ changed, once), their kwargs on every cause (creation: old is None; resuming; de
 stored last-handled state IS the essence; own writes invisible; an event without an essential change calls nobody and sends nothing).
 An exception raised inside kopf's sources is a verdict with the input as replay (never a skipped case or a crash of the check).
 The decisions taken from the two essences (cause, store guard, field-handler selection) are modelled (Model/C04_Cycle.lean),
-proved (Props/C04_Cycle.lean) and tied to what the real cycles do.
+proved (Props/C04_Cycle.lean) and tied to what the real cycles do. Model and theorems follow kopf 8d1358b (store guard / field selection
+by `old != new or diff`: former finding C04-F12) and 571b1b2 (a field hidden behind a non-mapping value is an absent field: former
+finding C04-F13; the essence tie compares these configurations instead of counting them as raised).
 """
 from __future__ import annotations
 
@@ -68,12 +70,18 @@ LEVEL_TEXT = (
     "multi_cleaning_order_independent (both hold for every permutation of the nested storages), instance "
     "multi_transitional_store_invisible (docs' Multi([Status, Annotations]) with handlers on status and metadata.annotations). "
     "The decisions of a processing cycle, taken from the two essences (Model/C04_Cycle.lean = causes.detect_changing_cause, the store "
-    "guard of processing.process_changing_cause, registries._matches_field_changes): noop_is_stable, creation_settles, "
-    "settled_after_store (whenever the guard lets the store through the next event is a NOOP), unchanged_field_not_selected (a field "
-    "JSON-equal on both sides never selects its handler) — full strength; update_settles_partial and field_handler_selected_partial "
-    "under noBool (no boolean in old/new resp. in the field's values: a guard broader than the gap), the gap itself proved: "
-    "stale_last_handled_witness + field_handler_not_selected_witness = finding C04-F12 (Python's != in the store guard and in the "
-    "field-handler selection: 1 -> true is an UPDATE that is never recorded as handled and never selects the handler of that field). "
+    "guard of processing.process_changing_cause and registries._matches_field_changes as of kopf 8d1358b: `old != new or diff`): "
+    "noop_is_stable, creation_settles, settled_after_store, update_is_stored (an UPDATE always passes the guard), update_settles (after "
+    "ANY finished update cycle the next event is a NOOP: handling never triggers itself), store_only_on_difference (the guard lets a "
+    "store through only when the two essences differ as JSON values: no re-store loop), field_handler_selected / field_handler_called "
+    "(a non-empty diff narrowed to the handler's field selects the handler), unchanged_field_not_selected — ALL full strength, no "
+    "guard (the former noBool guards of update_settles_partial / field_handler_selected_partial are gone with kopf 8d1358b); "
+    "stale_last_handled_witness + field_handler_not_selected_witness are now regressions: the variants before 8d1358b (storeGuardPy / "
+    "fieldChangedPy, Python's != alone = former finding C04-F12) fail on 1 -> true, today's do not. "
+    "A handler's field hidden behind a non-mapping value (former finding C04-F13, kopf 571b1b2): hidden_field_is_absent (for EVERY "
+    "storage configuration incl. Multi the essence is the one built without that handler's field), handler_fields_never_type_error; "
+    "regressions of the variants before 571b1b2: hidden_field_raised_witness (one unguarded cherrypick raised), "
+    "hidden_status_field_raised_witness (the two unguarded dicts.remove of StatusProgressStorage.clear raised). "
     "Oracle/tie only (NO theorem): the composition fetch∘store (`diff(clear(fetch(body')), clear(build(body')))` after a real "
     "store/purge/touch: key names, marker and merge are modelled, the JSON encoding is not), what handlers receive in a cycle "
     "(real process_resource_causes with several handlers, field= and whole-object mixed, all lifecycles), statelessness of the "
@@ -95,7 +103,9 @@ RULE = ("seeded, type-directed: Kubernetes-shaped bodies (nesting <= 5, empty co
         "storages in every order (status-based first/middle/last/absent/twice, annotations with different prefixes and keys, "
         "ignored_fields on nested storages), handler fields that do / do not cover the nested storages' own locations, bodies "
         "carrying the nested storages' stored states, all orders of the nested storages compared, and on EVERY configuration the "
-        "closed loop store -> next event -> must be a no-op (3 rounds); lives of one object through the real process_resource_causes "
+        "closed loop store -> next event -> must be a no-op (3 rounds); fields hidden behind non-mapping values (kopf 571b1b2): handler fields "
+        "below a scalar/list/null of the body (their essence must equal the one built without them), the storages' own stanza "
+        "overwritten with a non-mapping, one own field of a status storage hidden while the other is not (gen_hidden_case); lives of one object through the real process_resource_causes "
         "(10 diff-base x 10 progress storage configurations, 1-5 handlers @on.create/update/field/resume/delete with and without "
         "field= incl. status fields, @on.event(field=) and handlers of another resource, 4 lifecycles; edits: payload mutations, "
         "bool<->number only, status only, nothing essential, a field appears (also with a falsy value) / disappears; quiet probes: the "
@@ -130,7 +140,12 @@ ASSUMPTIONS = ["numbers are integers (no floats in generated bodies)",
                "not generated (a sub-handler's field= is resolved against the parent's narrowed cause: semantics unspecified, see NOTES); an "
                "object that matches no handler's criteria is expected to be left untouched (nothing stored); bodies whose metadata is not a "
                "mapping are not judged (impossible on a Kubernetes API), every other exception raised inside kopf is an oracle failure "
-               "(finding C04-F13 explains a TypeError only when a handler's/storage's field passes through a non-mapping value of the body)",
+               "(no exemption: since kopf 571b1b2 a handler's/storage's field hidden behind a non-mapping value is an absent field; the "
+               "signature of the fixed finding C04-F13 only names that class when it comes back)",
+               "life cases in which a status-based storage's OWN location holds a foreign non-mapping value (e.g. status.kopf overwritten with a "
+               "string, a handler watching `status`): the first own write REPLACES that value (merge-patch), the watcher of `status` sees one "
+               "change made by the framework; such lives are judged only for: no exception, the handling comes to rest (same exemption as at "
+               "the pure level, next line)",
                "own-write and closed-loop oracles skip a storage write whose configured location lies below a non-mapping value of the "
                "object (e.g. diff-base field spec.lhc and spec: false: the merge-patch replaces the value)"]
 
@@ -149,8 +164,10 @@ THEOREM_NAMES = [
     "label_change_detected", "ordinary_annotation_change_detected",
     "nested_own_writes_cleaned_partial", "nested_ignored_fields_cleaned", "multi_cleaning_order_independent",
     "multi_transitional_store_invisible", "multi_marker_restored_witness",
-    "noop_is_stable", "creation_settles", "settled_after_store", "update_settles_partial", "stale_last_handled_witness",
-    "field_handler_selected_partial", "unchanged_field_not_selected", "field_handler_not_selected_witness",
+    "noop_is_stable", "creation_settles", "settled_after_store", "update_is_stored", "update_settles", "store_only_on_difference",
+    "stale_last_handled_witness", "field_handler_selected", "field_handler_called", "unchanged_field_not_selected",
+    "field_handler_not_selected_witness",
+    "hidden_field_is_absent", "handler_fields_never_type_error", "hidden_field_raised_witness", "hidden_status_field_raised_witness",
 ]
 
 QUICK_PAIRS, THOROUGH_PAIRS = 5000, 300000
@@ -338,6 +355,12 @@ def gen_body(rng: random.Random) -> dict:
             st = {"state": st}
         if isinstance(st, dict) and rng.random() < 0.5:
             st["kopf"] = {"progress": {"fn": {"started": "2020", "retries": 0}}, "dummy": "2020-01-01"}
+        elif isinstance(st, dict) and rng.random() < 0.12:
+            # the storages' own stanza overwritten with a non-mapping: their fields are hidden behind it (absent since kopf 571b1b2),
+            # fields configured elsewhere (status.dummy, status.progress) are not
+            st["kopf"] = rng.choice(["overwritten", 5, [], None])
+            if rng.random() < 0.5:
+                st["dummy"] = "2020-01-01"
         body["status"] = st
     for extra in rng.sample(["data", "stringData", "rules", "ключ"], rng.choice([0, 0, 1, 2])):
         body[extra] = gen_value(rng, 3)
@@ -886,7 +909,46 @@ def gen_diff_case(rng: random.Random) -> tuple[dict, list[str]]:
 
 # ---- essence ------------------------------------------------------------------------------------
 
+def gen_hidden_case(rng: random.Random) -> dict:
+    """One of a status-based storage's own fields lies below a foreign non-mapping value (its `dicts.remove` raises TypeError and is
+    skipped since kopf 571b1b2), the OTHER own field does not — it must still be cleaned, whatever happened to the first; a handler
+    watches `status` (or exactly that field), so the field is in the essence unless the storage removes it."""
+    hidden_first = rng.random() < 0.6
+    if hidden_first:
+        kw = {"field": "status.{name}.progress", "touch_field": rng.choice(["status.dummy", "status.other.dummy"])}
+    else:
+        kw = {"field": rng.choice(["status.progress", "status.other.progress"]), "touch_field": "status.{name}.dummy"}
+    if rng.random() < 0.25:
+        kw["name"] = "myop"
+    name = kw.get("name", "kopf")
+    prog: dict = {"cls": rng.choice(["status", "status", "nowrite"]), "kw": kw}
+    if rng.random() < 0.3:
+        prog = {"cls": "multi", "storages": rng.sample([prog, {"cls": "annotations", "kw": {}}], 2)}
+    body = gen_body(rng)
+    st: dict = {"state": "ok", name: rng.choice(["overwritten", 5, [], None, False]), "dummy": "2020-01-01T00:00:00",
+                "progress": {"fn": {"started": "2020", "retries": 1}}, "other": {"dummy": "2020", "progress": {"fn": {"retries": 0}}, "kept": 1}}
+    for k in ("dummy", "progress", "other"):
+        if rng.random() < 0.2:
+            del st[k]
+    body["status"] = st
+    if not isinstance(body.get("metadata"), dict):
+        body["metadata"] = {"name": "obj", "namespace": "ns", "uid": "u-1"}
+    r = rng.random()
+    diffbase = gen_diffbase_spec(rng) if r < 0.5 else {"cls": "status", "kw": {"name": name}} if r < 0.8 else \
+        {"cls": "multi", "storages": [{"cls": "status", "kw": {"name": name}}, {"cls": "annotations", "kw": {}}]}
+    extra = [rng.choice(["status", "status", "status.dummy", "status.progress", "status.other", f"status.{name}"])] + \
+        rng.sample(EXTRAS_SAFE, rng.choice([0, 1]))
+    writes = [{"w": rng.choice(["touch", "touch", "progress.store", "touch-clear", "diffbase.store"]), "value": "2020-01-01T00:00:00.123456",
+               "id": "create_fn", "record": {"started": "2020-01-01T00:00:00", "stopped": None, "delayed": None, "purpose": "create",
+                                             "retries": 1, "success": False, "failure": False, "message": None, "subrefs": None}}
+              for _ in range(rng.choice([1, 2]))]
+    return {"diffbase": diffbase, "progress": prog, "extra": extra, "body": body, "wseed": rng.getrandbits(48), "writes": writes,
+            "hidden_gen": "the progress field is hidden, the touch field is not" if hidden_first else "the touch field is hidden, the progress field is not"}
+
+
 def gen_ess_case(rng: random.Random) -> dict:
+    if rng.random() < 0.05:
+        return gen_hidden_case(rng)
     extra: list = []
     r = rng.random()
     if r < 0.5:
@@ -1137,6 +1199,8 @@ def eval_ess_case(K: dict, case: dict, out: Out) -> None:
     out.count("progress_cls", case["progress"]["cls"])
     out.count("essence_result", res[0] if res[0] == "ok" else res[1])
     out.count("extra_fields", len(extra))
+    if case.get("hidden_gen"):
+        out.count("hidden_own_field_cases", case["hidden_gen"])
     if case["diffbase"]["cls"] == "multi":
         kinds = "".join("S" if st["cls"] == "status" else "A" for st in case["diffbase"]["storages"])
         out.count("multi_shape", kinds or "(empty)")
@@ -1159,6 +1223,19 @@ def eval_ess_case(K: dict, case: dict, out: Out) -> None:
         out.count("multi_body_carries_stored_state", bool(carried) or bool(case.get("writes") and case["writes"][0].get("w") == "diffbase.store"))
     if leanio.canon(body) != before:
         out.fail("oracle", "build/clear modified the body it was given", replay, {"site": "DiffBaseStorage.build", "shape": "mutates-body"})
+    hidden_extra = [f for f in mextra if through_non_mapping(body, f)]
+    hidden_own = [f for f in storage_fields(K, ds, ps) if through_non_mapping(body, f)]
+    out.count("essence_hidden_field", ("a handler's field" if hidden_extra else "") + ("+" if hidden_extra and hidden_own else "") +
+              ("a storage's field" if hidden_own else "") or "none")
+    if (hidden_extra or hidden_own) and res[0] == "ok":
+        out.keys.add(digest(["ess-hidden", case["diffbase"], case["progress"], extra, body]))
+        # the property for this class (former F13): the hidden handler fields contribute nothing
+        if hidden_extra and wellformed_meta(body):
+            res_wo = real_essence(K, ds, ps, body, [f for f in extra if not through_non_mapping(body, parse_field(f))])
+            if res_wo[0] != "ok" or not strict_eq(res_wo[1], res[1]):
+                out.fail("oracle", "a handler's field hidden behind a non-mapping value changes the essence (it must count as absent)",
+                         dict(replay, essence=res, essence_without_hidden=res_wo),
+                         {"site": "DiffBaseStorage.build", "shape": "a hidden handler field is not an absent field"})
     out.ask("diffbase.build + progress.clear", ["C04.essence", mcfg, mextra, body], res, replay)
     for leaf_s, leaf_m in zip(ds.storages if isinstance(ds, K["diffbase"].MultiDiffBaseStorage) else [ds],
                               mcfg["diffbase"]["storages"] if mcfg["diffbase"]["kind"] == "multi" else [mcfg["diffbase"]]):
@@ -1188,7 +1265,7 @@ def eval_ess_case(K: dict, case: dict, out: Out) -> None:
         if wellformed_meta(body):
             exn = {v: k.__name__ for k, v in ERRS.items()}[res[1]]
             sig = raise_signature(K, ds, ps, body, extra, exn, "DiffBaseStorage.build/ProgressStorage.clear")
-            out.count("essence_raises", "explained by F13 (field through a non-mapping)" if sig == SIG_F13 else f"{exn}: unexplained")
+            out.count("essence_raises", "the fixed F13 is back (field through a non-mapping)" if sig == SIG_F13 else f"{exn}: unexplained")
             out.fail("oracle", f"the essence of a well-formed object cannot be built: {exn} (the object is never processed)", replay, sig)
         else:
             out.count("essence_raises", "malformed metadata (not judged)")
@@ -1718,6 +1795,7 @@ def _judge_cycle(K: dict, case: dict, ctxv: dict, calls: list, out: Out) -> None
 #     a foreign status write, another Kopf operator's write) calls nobody and sends nothing;
 #   * an exception of the real code is a verdict (the object cannot be processed), never a skipped case.
 
+# C04-F12 (fixed by kopf 8d1358b) and C04-F13 (fixed by kopf 571b1b2): the signatures stay, they name the class when it comes back
 SIG_F12 = {"site": "processing.process_changing_cause/registries._matches_field_changes",
            "shape": "Python == on old/new: a bool<->number change is an update that is never recorded as handled, and no change for a field handler"}
 SIG_F13 = {"site": "dicts.cherrypick/dicts.remove",
@@ -1766,7 +1844,7 @@ def gen_life_case(rng: random.Random) -> dict:
         elif r < 0.24:
             spec[k] = rng.choice(FALSY)                          # present and falsy from the start
     if rng.random() < 0.04:
-        spec["a"] = rng.choice(["str", 5, [], None])             # a non-mapping on the way to spec.a.b (finding F13)
+        spec["a"] = rng.choice(["str", 5, [], None])             # a non-mapping on the way to spec.a.b (former finding F13: an absent field)
     meta: dict[str, Any] = {"name": "obj", "namespace": "ns", "uid": "u1", "resourceVersion": "7", "generation": 1,
                             "creationTimestamp": "2020-01-01T00:00:00Z", "labels": {"app": rng.choice(["a", "b"]), "tier": "x"}}
     if rng.random() < 0.15:
@@ -1782,6 +1860,8 @@ def gen_life_case(rng: random.Random) -> dict:
         st: dict[str, Any] = {"phase": rng.choice(["Pending", "Running", "", 0]), "other": 1}
         if rng.random() < 0.25:
             st["kopf"] = {"progress": {"gone_fn": {"started": "2020-01-01T00:00:00", "retries": 0}}, "dummy": "2020-01-01"}
+        elif rng.random() < 0.06:
+            st["kopf"] = rng.choice(["overwritten", 5, []])      # the storages' own stanza holds a foreign non-mapping value
         if rng.random() < 0.25:
             st["conditions"] = [{"type": "Ready", "status": "True"}]
         body["status"] = st
@@ -1876,7 +1956,8 @@ def field_differs(eo: Any, en: Any, f: list) -> bool:
 
 def through_non_mapping(body: Any, path: list) -> bool:
     """Is some proper prefix of the path present in the body with a non-mapping value? (dicts.resolve without a default
-    and dicts.remove raise TypeError exactly then: the class of finding F13)"""
+    and dicts.remove raise TypeError exactly then: the class of the former finding F13 — since kopf 571b1b2 the callers in
+    build/clear treat it as an absent field)"""
     cur = body
     for k in path[:-1]:
         if not isinstance(cur, dict) or k not in cur:
@@ -1892,6 +1973,13 @@ def storage_fields(K: dict, ds: Any, ps: Any) -> list[list[str]]:
     return [p for p in ignored_paths(K, ds) + status_clean_paths(K, ps) if p]
 
 
+def own_status_locations(K: dict, ds: Any, ps: Any) -> list[list[str]]:
+    """the status-like locations the storages themselves WRITE (the diff-base's own field, the progress field, the touch field)."""
+    d = K["diffbase"]
+    leaves = ds.storages if isinstance(ds, d.MultiDiffBaseStorage) else [ds]
+    return [list(x.field) for x in leaves if isinstance(x, d.StatusDiffBaseStorage)] + status_clean_paths(K, ps)
+
+
 def wellformed_meta(body: Any) -> bool:
     m = body.get("metadata") if isinstance(body, dict) else None
     if "metadata" in body and not isinstance(m, dict):
@@ -1902,7 +1990,7 @@ def wellformed_meta(body: Any) -> bool:
 
 
 def raise_signature(K: dict, ds: Any, ps: Any, body: Any, extra: list, ex_name: str, where: str) -> dict:
-    """Which open finding (if any) can explain that the real code raised on a well-formed body."""
+    """Which finding's class (if any) the exception belongs to (C04-F13 is fixed: its signature marks a regression)."""
     if ex_name == "TypeError" and any(through_non_mapping(body, parse_field(p)) for p in list(extra) + storage_fields(K, ds, ps)):
         return SIG_F13
     return {"site": where, "shape": f"raises {ex_name} on a well-formed body"}
@@ -2165,11 +2253,11 @@ async def _eval_life(K: dict, E: dict, case: dict, out: Out) -> None:
                 if creation or h["deco"] in ("delete", "resume") or kind == "deletion":
                     sig = SIG_SELECT
                 elif len(mine) > 1 and only_boolint(e_old, e_new):
-                    sig = SIG_F12                         # the update is never recorded as handled: every event repeats it
+                    sig = SIG_F12                         # (fixed class) the update is never recorded as handled: every event repeats it
                 elif len(mine) <= 1 and (equiv_strict(a, b) or (not mine and equiv_strict(e_old, e_new))):
                     sig = SIG_F10                         # null-valued vs. absent keys only (the whole cause is a NOOP then)
                 elif len(mine) == 0 and f and equiv_py(a, b):
-                    sig = SIG_F12                         # the field handler's `old != new` is Python's
+                    sig = SIG_F12                         # (fixed class) the field handler's selection by Python's `old != new`
                 else:
                     sig = SIG_SELECT
                 what = ("is called %d times" % len(mine)) if len(mine) > 1 else \
@@ -2270,6 +2358,24 @@ async def _eval_life(K: dict, E: dict, case: dict, out: Out) -> None:
         stored0 = fetched_of(body0)
     except tuple(ERRS) + (AttributeError,):
         stored0 = "unreadable"
+    if any(through_non_mapping(body0, loc) for loc in own_status_locations(K, dsf, psf)):
+        # a storage's own location lies below a foreign non-mapping value (e.g. status.kopf is a string): the first own write replaces it — a change
+        # made by the framework that a watcher of `status` sees once (see ASSUMPTIONS). Judged: the object IS processed (no
+        # exception: the class of the former finding F13) and the handling comes to rest.
+        st = await life.settle(body0, "creation", limit)
+        if st["raised"] is not None:
+            raised("creation", st["raised"], body0, rp)
+        elif not st["settled"]:
+            out.fail("oracle", f"creation (an own storage location lies below a foreign scalar): the handling does not come to rest after "
+                               f"{st['cycles']} cycles", dict(rp, patches=st["patches"][-3:], body_at=st["body"]), SIG_SETTLE)
+        else:
+            if e0[0] == "ok":
+                out.ask("diffbase.build + progress.clear (an own storage location lies below a foreign scalar)",
+                        ["C04.essence", mcfg, own_extras, body0], e0, dict(rp, body_at=body0))
+            if life.calls:
+                out.keys.add(digest(["life-corrupt", case["diffbase"], case["progress"], case["handlers"], case["body"]]))
+        out.count("life_outcome", "an own storage location lies below a foreign scalar (processed, comes to rest; not judged further)")
+        return
     # ---- phase A: the object is seen for the first time -------------------------------------------------------
     st = await life.settle(body0, "creation", limit)
     if st["raised"] is not None:
@@ -2614,8 +2720,10 @@ def replay(ctx: Ctx, data: dict) -> None:
 
 WITNESS_NAMES = {"kopf_dev_touch_invisible", "marker_first_write_witness", "adoption_loses_last_handled_witness",
                  "touch_field_cleaned", "extra_annotations_witness", "status_handler_touch_invisible", "multi_drs_own_key_invisible",
-                 "multi_transitional_store_invisible", "multi_marker_restored_witness"}
-CYCLE_NAMES = {"noop_is_stable", "creation_settles", "settled_after_store", "update_settles_partial", "stale_last_handled_witness",
-               "field_handler_selected_partial", "unchanged_field_not_selected", "field_handler_not_selected_witness"}
+                 "multi_transitional_store_invisible", "multi_marker_restored_witness", "hidden_field_raised_witness",
+                 "hidden_status_field_raised_witness"}
+CYCLE_NAMES = {"noop_is_stable", "creation_settles", "settled_after_store", "update_is_stored", "update_settles", "store_only_on_difference",
+               "stale_last_handled_witness", "field_handler_selected", "field_handler_called", "unchanged_field_not_selected",
+               "field_handler_not_selected_witness"}
 THEOREMS = [("Kopf.Props.C04_Witnesses" if n in WITNESS_NAMES else "Kopf.Props.C04_Cycle" if n in CYCLE_NAMES else "Kopf.Props.C04",
              f"Kopf.C04.{n}") for n in THEOREM_NAMES]
